@@ -548,7 +548,12 @@ def runPredicates (sc : Scn) (fx : Facts) (evs : List Ev) : List (String × Opti
         let inputs := ((kv rest "inputs").getD "").splitOn "," |>.filter (· ≠ "") |>.map parseLabelV
         let convs := ((kv rest "convs").getD "").splitOn "," |>.filter (· ≠ "") |>.map natOf
         let sortL := fun (l : List (Label × Nat)) => (l.map (fun p => showLabel p.1 ++ s!":{p.2}")).mergeSort (· ≤ ·)
-        if !fx.hopeless.all (fun h => args.contains h) then some s!"hopeless_{showLabel (fx.hopeless.headD default)}_not_listed"
+        if !fx.hopeless.all (fun h => args.contains h) then
+          -- (a hopeless parameter of an interface type that has a twin — another interface with the same method set — is
+          -- reachable for the library through the twin's vertex: finding F14 seen from this property)
+          let h := (fx.hopeless.find? (fun h => !args.contains h)).getD default
+          let twin := sc.env.isIface h.ty && (List.range 40).any (fun t => t != h.ty && sc.env.isIface t && sc.env.impl t h.ty && sc.env.impl h.ty t)
+          some s!"{if twin then "twin_interfaces:" else ""}hopeless_{showLabel h}_not_listed"
         else if !args.all (fun a => fx.target.input.labels.contains a) then some "listed_argument_is_not_a_parameter"
         else if !args.all (fun a => fx.underiv.contains a) then
           (if args.all (fun a => fx.underivLib.contains a) ∧ !fx.gaps.isEmpty
